@@ -165,3 +165,938 @@ class C15(Prop):
                                 and max(c["r"][2], c["iv"][2]) > min(c["r"][3], c["iv"][3]):
                             continue
                         yield c
+
+
+# ==========================================================================================
+# liftover-based properties: shared machinery
+# ==========================================================================================
+
+def ms(pairs):
+    return sorted(pairs)
+
+
+def parse_liftover_reply(reply):
+    """-> (build_reply, [ (tag, [pairs]) per interval ])"""
+    parts = reply.split(" ; ")
+    return parts[0], [parse_lift(p) for p in parts[1:]]
+
+
+def lift_obs(reply):
+    """observable compared with the model: build class + per interval tag + multiset of pairs"""
+    b, ls = parse_liftover_reply(reply)
+    return (b, [(t, ms(p)) for t, p in ls])
+
+
+class LiftProp(Prop):
+    zero_prob = 0.0
+    nonempty = False
+    n_files = {"quick": 250, "thorough": 4000}
+    n_ivs = 14
+    big_prob = 0.08
+    exhaustive_small = False
+
+    def gen_chains(self, rng):
+        if rng.random() < self.big_prob:
+            return ch.gen_big_file(rng)
+        return ch.gen_file(rng, zero_prob=self.zero_prob)
+
+    def cases(self, rng, tier):
+        for _ in range(self.n_files[tier]):
+            chains = self.gen_chains(rng)
+            style = ch.gen_style(rng)
+            ivs = [list(ch.gen_interval(rng, chains, nonempty=self.nonempty)) for _ in range(self.n_ivs)]
+            yield {"kind": "lift", "chains": [ch.chain_to_dict(c) for c in chains],
+                   "style": ch.style_to_dict(style), "ivs": ivs}
+        if tier == "thorough" and self.exhaustive_small:
+            for _ in range(60):
+                chains = ch.gen_file(rng, max_chains=3, long_prob=0.05, zero_prob=self.zero_prob)
+                for name in sorted(set(c.ref.name for c in chains)):
+                    size = max(c.ref.size for c in chains if c.ref.name == name)
+                    if size > 24:
+                        continue
+                    ivs = [list(iv) for iv in ch.all_intervals(name, size) if not self.nonempty or iv[2] < iv[3]]
+                    for i in range(0, len(ivs), 60):
+                        yield {"kind": "lift", "chains": [ch.chain_to_dict(c) for c in chains],
+                               "style": ch.PLAIN, "ivs": ivs[i:i + 60]}
+
+    def src(self, case):
+        return ch.src_one(ch.render_case(case["chains"], case.get("style")))
+
+    def ask_lift(self, ctx, ev, case, ivs=None):
+        ivs = case["ivs"] if ivs is None else ivs
+        req = "liftover %s %s" % (self.src(case), ",".join(iv_tok(*iv) for iv in ivs))
+        i, m = both(ctx, ev, req)
+        if lift_obs(i) != lift_obs(m):
+            ev.corr = "liftover answers differ: impl %r vs model %r" % (i[:400], m[:400])
+        return i, m
+
+    def shrink(self, case):
+        for cs in ch.shrink_chains(case["chains"]):
+            c = copy.deepcopy(case)
+            c["chains"] = cs
+            yield c
+        if case.get("style") != ch.PLAIN:
+            c = copy.deepcopy(case)
+            c["style"] = ch.PLAIN
+            yield c
+        for i in range(len(case["ivs"])):
+            if len(case["ivs"]) > 1:
+                c = copy.deepcopy(case)
+                c["ivs"] = [case["ivs"][i]]
+                yield c
+
+    def neighbours(self, case, rng):
+        for i, iv in enumerate(case["ivs"]):
+            for idx in (2, 3):
+                for d in (-1, 1):
+                    c = copy.deepcopy(case)
+                    c["ivs"] = [list(iv)]
+                    c["ivs"][0][idx] += d
+                    if 0 <= c["ivs"][0][2] <= c["ivs"][0][3] <= U64 and (not self.nonempty or c["ivs"][0][2] < c["ivs"][0][3]):
+                        yield c
+            c = copy.deepcopy(case)
+            c["ivs"] = [[iv[0], "-" if iv[1] == "+" else "+", iv[2], iv[3]]]
+            yield c
+        chains = [ch.chain_from_dict(c) for c in case["chains"]]
+        for name in sorted(set(c.ref.name for c in chains)):
+            pts = ch.boundaries(chains, name)
+            ivs = []
+            for a in pts:
+                for b in pts:
+                    for da in (-1, 0, 1):
+                        for db in (-1, 0, 1):
+                            lo, hi = a + da, b + db
+                            if 0 <= lo <= hi <= U64 and (not self.nonempty or lo < hi):
+                                ivs.append([name, "+", lo, hi])
+                                ivs.append([name, "-", lo, hi])
+            rng.shuffle(ivs)
+            for i in range(0, min(len(ivs), 400), 40):
+                c = copy.deepcopy(case)
+                c["ivs"] = ivs[i:i + 40]
+                yield c
+
+    def tag_file(self, ev, case):
+        cs = case["chains"]
+        ev.tags.append("chains=%d" % min(len(cs), 5))
+        ev.tags.append("blocks=%d" % min(sum(len(c["blocks"]) for c in cs), 12))
+        for c in cs:
+            ev.tags.append("strands=%s%s" % (c["ref"][2], c["qry"][2]))
+
+
+def block_of(blocks, pair):
+    """the spec blocks (8-tuples) a returned pair lies in"""
+    out = []
+    for b in blocks:
+        if b[0] == pair[0] and b[1] == pair[1] and b[2] <= pair[2] and pair[3] <= b[3] and b[4] == pair[4] and b[5] == pair[5]:
+            out.append(b)
+    return out
+
+
+@register
+class C01(LiftProp):
+    id = "C01"
+    title = "Liftover soundness: every returned base pairing is a true chain alignment"
+    zero_prob = 0.08
+    exhaustive_small = True
+    rule = ("well-formed files (1-5 chains, 1-6 blocks, gaps 0/1/2/5, all four strand combinations, shared contig names, "
+            "zero-size blocks, coordinates near 2^32/2^63/2^64) x intervals biased to block boundaries ±1, zero-length, past "
+            "the contig end, unknown contig, both strands; non-trivial = the answer contains a pair that is a proper "
+            "sub-range of its block or lies on a '-' side; distinct by (file, interval)")
+
+    def evaluate(self, ctx, case):
+        ev = Eval()
+        self.tag_file(ev, case)
+        i, m = self.ask_lift(ctx, ev, case)
+        b, answers = parse_liftover_reply(i)
+        if not b.startswith("ok"):
+            ev.tags.append("build:" + b.split(" ")[0])
+            return ev
+        blocks = [bl for c in case["chains"] for bl in ch.chain_blocks(ch.chain_from_dict(c))]
+        for iv, (tag, pairs) in zip(case["ivs"], answers):
+            ev.tags.append("answer:" + tag)
+            if tag == "panic":
+                ev.judge = "liftover panicked on %s" % (iv,)
+                break
+            if tag != "some":
+                continue
+            req = "spec sound %s %s %s" % (self.src(case), iv_tok(*iv),
+                                           " ".join("%s>%s" % (iv_tok(*p[:4]), iv_tok(*p[4:])) for p in pairs))
+            r = ctx.model.ask(req)
+            ev.requests.append(req)
+            if r != "ok":
+                ev.judge = "pair not a sub-range of any block of the file / not inside the interval: %s (interval %s)" % (r, iv)
+                break
+            for p in pairs:
+                bs = block_of(blocks, p)
+                if bs and ((p[3] - p[2]) < min(b[3] - b[2] for b in bs) or p[1] == "-" or p[5] == "-"):
+                    ev.nontrivial = (case_key(case), tuple(iv))
+        return ev
+
+
+def case_key(case):
+    import hashlib, json
+    return hashlib.md5(json.dumps([case["chains"], case.get("style")], sort_keys=True).encode()).hexdigest()[:10]
+
+
+@register
+class C02(LiftProp):
+    id = "C02"
+    title = "Liftover completeness and exact clipping; 'no mapping' iff nothing aligns"
+    nonempty = True
+    exhaustive_small = True
+    rule = ("well-formed files without zero-size blocks (one long block next to many short ones with probability 0.15 "
+            "per block, adjacent blocks, overlapping chains) x non-empty intervals biased to block boundaries ±1, gaps, unknown "
+            "contigs, both strands; thorough adds every (start,end) pair x both strands on contigs of size <= 24; "
+            "non-trivial = the contig has >= 2 blocks and the interval touches or cuts a block boundary; distinct by (file, interval)")
+
+    def evaluate(self, ctx, case):
+        ev = Eval()
+        self.tag_file(ev, case)
+        i, m = self.ask_lift(ctx, ev, case)
+        req = "spec hits %s %s" % (self.src(case), ",".join(iv_tok(*iv) for iv in case["ivs"]))
+        s = ctx.model.ask(req)
+        ev.requests.append(req)
+        b, answers = parse_liftover_reply(i)
+        sb, sanswers = parse_liftover_reply(s)
+        if sb != "wf":
+            ev.tags.append("spec:" + sb)
+            return ev
+        if not b.startswith("ok"):
+            ev.judge = "well-formed file not accepted: " + b
+            return ev
+        chains = [ch.chain_from_dict(c) for c in case["chains"]]
+        for iv, (tag, pairs), (stag, spairs) in zip(case["ivs"], answers, sanswers):
+            ev.tags.append("answer:" + tag)
+            if tag != stag or ms(pairs) != ms(spairs):
+                ev.judge = "interval %s: implementation %s %s, specification %s %s" % (iv, tag, ms(pairs), stag, ms(spairs))
+                break
+            pts = ch.boundaries(chains, iv[0])
+            nblocks = sum(len(c.blocks) for c in chains if c.ref.name == iv[0])
+            if nblocks >= 2 and (iv[2] in pts or iv[3] in pts or any(iv[2] < p < iv[3] for p in pts)):
+                ev.nontrivial = (case_key(case), tuple(iv))
+        return ev
+
+
+def cut_pair(p, at):
+    """split a pair (8-tuple, forward coordinates) at reference forward position `at`; -> [parts]"""
+    rn, rs, rlo, rhi, qn, qs, qlo, qhi = p
+    if at <= rlo or at >= rhi:
+        return [p]
+    # strand-directed offset of the cut from the reference start
+    k = at - rlo if rs == "+" else rhi - at
+    n = rhi - rlo
+    def sub(lo, hi, strand, o1, o2):
+        return (lo + o1, lo + o2) if strand == "+" else (hi - o2, hi - o1)
+    parts = []
+    for o1, o2 in ((0, k), (k, n)):
+        a = sub(rlo, rhi, rs, o1, o2)
+        b = sub(qlo, qhi, qs, o1, o2)
+        parts.append((rn, rs, a[0], a[1], qn, qs, b[0], b[1]))
+    return parts
+
+
+@register
+class C09(LiftProp):
+    id = "C09"
+    title = "Lifting an interval equals lifting its parts, down to single bases"
+    zero_prob = 0.05
+    n_ivs = 6
+    rule = ("well-formed files x intervals x split points on block boundaries, inside gaps, ±1 and uniform; the judge cuts "
+            "the whole answer at the split point and compares multisets with the two part answers (empty pairs dropped), and "
+            "checks that no pair leaves the interval; non-trivial = the whole answer has a pair that the split point cuts "
+            "properly; distinct by (file, interval, split)")
+
+    def cases(self, rng, tier):
+        for case in LiftProp.cases(self, rng, tier):
+            chains = [ch.chain_from_dict(c) for c in case["chains"]]
+            trip = []
+            for iv in case["ivs"][:self.n_ivs]:
+                lo, hi = iv[2], iv[3]
+                pts = [p for p in ch.boundaries(chains, iv[0]) if lo <= p <= hi] if iv[0] != "nochr" else []
+                cand = [lo, hi, (lo + hi) // 2] + pts + [p + d for p in pts for d in (-1, 1) if lo <= p + d <= hi]
+                p = rng.choice(cand) if rng.random() < 0.8 else rng.randint(lo, hi)
+                trip.append([list(iv), p])
+            case["splits"] = trip
+            del case["ivs"]
+            case["kind"] = "split"
+            yield case
+
+    def evaluate(self, ctx, case):
+        ev = Eval()
+        self.tag_file(ev, case)
+        ivs = []
+        for iv, p in case["splits"]:
+            ivs += [iv, [iv[0], iv[1], iv[2], p], [iv[0], iv[1], p, iv[3]]]
+        i, m = self.ask_lift(ctx, ev, case, ivs)
+        b, answers = parse_liftover_reply(i)
+        if not b.startswith("ok"):
+            ev.tags.append("build:" + b.split(" ")[0])
+            return ev
+        for k, (iv, p) in enumerate(case["splits"]):
+            (t0, whole), (t1, a), (t2, bb) = answers[3 * k:3 * k + 3]
+            if "panic" in (t0, t1, t2):
+                ev.judge = "panic on %s split %d" % (iv, p)
+                break
+            cut = [q for pr in whole for q in cut_pair(pr, p)]
+            cut = [q for q in cut if q[3] > q[2]]
+            parts = [q for q in a + bb if q[3] > q[2]]
+            if ms(cut) != ms(parts):
+                ev.judge = "interval %s split at %d: whole cut = %s, parts = %s" % (iv, p, ms(cut), ms(parts))
+                break
+            for pr in whole:
+                if pr[0] != iv[0] or pr[1] != iv[1] or pr[2] < iv[2] or pr[3] > iv[3]:
+                    ev.judge = "pair %s reaches outside the interval %s" % (pr, iv)
+            if any(pr[2] < p < pr[3] for pr in whole):
+                ev.nontrivial = (case_key(case), tuple(iv), p)
+            ev.tags.append("whole:" + t0)
+        return ev
+
+    def shrink(self, case):
+        for cs in ch.shrink_chains(case["chains"]):
+            c = copy.deepcopy(case)
+            c["chains"] = cs
+            yield c
+        for i in range(len(case["splits"])):
+            if len(case["splits"]) > 1:
+                c = copy.deepcopy(case)
+                c["splits"] = [case["splits"][i]]
+                yield c
+
+    def neighbours(self, case, rng):
+        for iv, p in case["splits"]:
+            for d in (-2, -1, 1, 2):
+                if iv[2] <= p + d <= iv[3]:
+                    c = copy.deepcopy(case)
+                    c["splits"] = [[iv, p + d]]
+                    yield c
+            for q in range(iv[2], min(iv[3], iv[2] + 60) + 1):
+                c = copy.deepcopy(case)
+                c["splits"] = [[iv, q]]
+                yield c
+
+
+def swap_chain(d):
+    return {"score": d["score"], "id": d["id"], "ref": list(d["qry"]), "qry": list(d["ref"]),
+            "blocks": [[b[0], b[2], b[1]] for b in d["blocks"]]}
+
+
+@register
+class C10(LiftProp):
+    id = "C10"
+    title = "Exchanging reference and query roles inverts the mapping"
+    rule = ("well-formed files (all four strand combinations, multi-block, gapped, multi-chain) and their role-exchanged twins; "
+            "for the first, last and a random interior base of every block: lift the single base x in the file, then lift every "
+            "image y in the twin and require x among the images; non-trivial = block on a '-' side or with non-zero gaps before it; "
+            "distinct by (file, base)")
+    n_files = {"quick": 150, "thorough": 2500}
+
+    def cases(self, rng, tier):
+        for _ in range(self.n_files[tier]):
+            chains = self.gen_chains(rng)
+            bases = []
+            for c in chains:
+                for b in ch.chain_blocks(c):
+                    if b[3] > b[2]:
+                        for pos in sorted(set([b[2], b[3] - 1, rng.randint(b[2], b[3] - 1)])):
+                            bases.append([b[0], b[1], pos])
+            rng.shuffle(bases)
+            yield {"kind": "swap", "chains": [ch.chain_to_dict(c) for c in chains], "style": ch.style_to_dict(ch.gen_style(rng)),
+                   "bases": bases[:12]}
+
+    def evaluate(self, ctx, case):
+        ev = Eval()
+        self.tag_file(ev, case)
+        if not case["bases"]:
+            return ev
+        ivs = [[b[0], b[1], b[2], b[2] + 1] for b in case["bases"]]
+        i, m = self.ask_lift(ctx, ev, case, ivs)
+        b, answers = parse_liftover_reply(i)
+        if not b.startswith("ok"):
+            ev.tags.append("build:" + b.split(" ")[0])
+            return ev
+        twin = dict(case)
+        twin["chains"] = [swap_chain(c) for c in case["chains"]]
+        back = []
+        for x, (tag, pairs) in zip(case["bases"], answers):
+            for p in pairs:
+                if p[3] - p[2] != 1 or p[7] - p[6] != 1:
+                    ev.judge = "single-base answer is not a single base: %s" % (p,)
+                    return ev
+                back.append((x, [p[4], p[5], p[6], p[7]]))
+        if not back:
+            return ev
+        i2, m2 = self.ask_lift(ctx, ev, twin, [y for _, y in back])
+        b2, answers2 = parse_liftover_reply(i2)
+        if not b2.startswith("ok"):
+            ev.judge = "role-exchanged twin of an accepted file is refused: " + b2
+            return ev
+        for (x, y), (tag, pairs) in zip(back, answers2):
+            imgs = [(p[4], p[5], p[6]) for p in pairs]
+            if (x[0], x[1], x[2]) not in imgs:
+                ev.judge = "x=%s maps to y=%s but the twin maps y to %s" % (x, y, imgs)
+                return ev
+            if x[1] == "-" or y[1] == "-":
+                ev.nontrivial = (case_key(case), tuple(x))
+        return ev
+
+    def shrink(self, case):
+        for cs in ch.shrink_chains(case["chains"]):
+            c = copy.deepcopy(case)
+            c["chains"] = cs
+            chains = [ch.chain_from_dict(x) for x in cs]
+            bases = []
+            for cc in chains:
+                for b in ch.chain_blocks(cc):
+                    if b[3] > b[2]:
+                        bases += [[b[0], b[1], b[2]], [b[0], b[1], b[3] - 1]]
+            c["bases"] = bases[:12]
+            yield c
+
+    def neighbours(self, case, rng):
+        chains = [ch.chain_from_dict(x) for x in case["chains"]]
+        bases = []
+        for cc in chains:
+            for b in ch.chain_blocks(cc):
+                for pos in range(b[2], min(b[3], b[2] + 40)):
+                    bases.append([b[0], b[1], pos])
+        for i in range(0, len(bases), 12):
+            c = copy.deepcopy(case)
+            c["bases"] = bases[i:i + 12]
+            yield c
+
+
+@register
+class C11(LiftProp):
+    id = "C11"
+    title = "Chains act independently; results are deterministic and ordered"
+    zero_prob = 0.04
+    n_files = {"quick": 150, "thorough": 2500}
+    n_ivs = 10
+    rule = ("well-formed files with >= 2 chains x intervals: answer over the file = multiset union of the answers over each chain "
+            "alone; a random permutation of the chains gives the same multisets; the file is built twice in-process (fresh "
+            "RandomStates) and the two answer sequences must be identical; each answer is sorted by forward reference start; "
+            "thorough also rebuilds in a fresh process; non-trivial = >= 2 chains contribute to one answer; distinct by (file, interval)")
+
+    def evaluate(self, ctx, case):
+        ev = Eval()
+        self.tag_file(ev, case)
+        i, m = self.ask_lift(ctx, ev, case)
+        b, answers = parse_liftover_reply(i)
+        if not b.startswith("ok"):
+            ev.tags.append("build:" + b.split(" ")[0])
+            return ev
+        # determinism: rebuild
+        i_again = ctx.impl.ask(ev.requests[0])
+        if i_again != i:
+            ev.judge = "rebuilding from the same bytes changed the answers or their order"
+            return ev
+        for iv, (tag, pairs) in zip(case["ivs"], answers):
+            if any(pairs[k][2] > pairs[k + 1][2] for k in range(len(pairs) - 1)):
+                ev.judge = "answer for %s is not ordered by forward reference start: %s" % (iv, pairs)
+                return ev
+        n = len(case["chains"])
+        if n >= 2:
+            union = [[] for _ in case["ivs"]]
+            contributors = [0 for _ in case["ivs"]]
+            for k in range(n):
+                one = dict(case)
+                one["chains"] = [case["chains"][k]]
+                ik, mk = self.ask_lift(ctx, ev, one)
+                bk, ak = parse_liftover_reply(ik)
+                if not bk.startswith("ok"):
+                    ev.judge = "a single chain of an accepted file is refused: " + bk
+                    return ev
+                for j, (t, ps) in enumerate(ak):
+                    union[j] += ps
+                    contributors[j] += 1 if ps else 0
+            for j, (iv, (tag, pairs)) in enumerate(zip(case["ivs"], answers)):
+                if ms(pairs) != ms(union[j]):
+                    ev.judge = "interval %s: file gives %s, union over single chains gives %s" % (iv, ms(pairs), ms(union[j]))
+                    return ev
+                if contributors[j] >= 2:
+                    ev.nontrivial = (case_key(case), tuple(iv))
+            perm = dict(case)
+            order = list(range(n))
+            random.Random(case_key(case)).shuffle(order)
+            perm["chains"] = [case["chains"][k] for k in order]
+            ip, mp = self.ask_lift(ctx, ev, perm)
+            if [(t, ms(p)) for t, p in parse_liftover_reply(ip)[1]] != [(t, ms(p)) for t, p in answers]:
+                ev.judge = "reordering the chains changed an answer"
+        return ev
+
+
+@register
+class C16(LiftProp):
+    id = "C16"
+    title = "Chromosome dictionaries mirror the headers; returned coordinates stay in bounds"
+    zero_prob = 0.05
+    n_files = {"quick": 250, "thorough": 4000}
+    rule = ("well-formed files with contig names shared between the reference and the query side with different sizes, many chains "
+            "per contig, plus files redeclaring a contig with another size on one side; judge: both dictionaries equal the "
+            "declared (name,size) sets per side, every returned coordinate within [0,size] of its contig in the respective "
+            "dictionary, a redeclared size is refused with an error; non-trivial = a name occurs on both sides with different "
+            "sizes, or the file redeclares a size; distinct by file")
+
+    def cases(self, rng, tier):
+        for case in LiftProp.cases(self, rng, tier):
+            if rng.random() < 0.2 and case["chains"]:
+                c = copy.deepcopy(case)
+                k = rng.randrange(len(c["chains"]))
+                dup = copy.deepcopy(c["chains"][rng.randrange(len(c["chains"]))])
+                side = rng.choice(["ref", "qry"])
+                dup[side][0] = c["chains"][k][side][0]
+                dup[side][1] = max(dup[side][4], c["chains"][k][side][1] + rng.choice([-1, 1, 7]))
+                if dup[side][1] == c["chains"][k][side][1]:
+                    dup[side][1] += 1
+                c["chains"].insert(rng.randrange(len(c["chains"]) + 1), dup)
+                c["kind"] = "conflict"
+                yield c
+            else:
+                yield case
+
+    def evaluate(self, ctx, case):
+        ev = Eval()
+        self.tag_file(ev, case)
+        i, m = self.ask_lift(ctx, ev, case)
+        b, answers = parse_liftover_reply(i)
+        ref, qry = ch.names_sizes(case["chains"], "ref"), ch.names_sizes(case["chains"], "qry")
+        conflict = any(len(v) > 1 for v in ref.values()) or any(len(v) > 1 for v in qry.values())
+        ev.tags.append("conflict" if conflict else "consistent")
+        if conflict:
+            if b.startswith("ok") or b.startswith("panic") or b == "abort":
+                ev.judge = "a file declaring one contig with two sizes gave: " + b
+            ev.nontrivial = ("conflict", case_key(case))
+            return ev
+        if not b.startswith("ok"):
+            ev.judge = "well-formed file refused: " + b
+            return ev
+        def dump(d):
+            return "[" + ",".join(sorted("%s:%d" % (hx(n), list(s)[0]) for n, s in d.items())) + "]"
+        want = "ok ref=%s qry=%s" % (dump(ref), dump(qry))
+        if b != want:
+            ev.judge = "dictionaries: expected %s, got %s" % (want, b)
+            return ev
+        for iv, (tag, pairs) in zip(case["ivs"], answers):
+            for p in pairs:
+                rs = list(ref.get(p[0], [None]))[0]
+                qs = list(qry.get(p[4], [None]))[0]
+                if rs is None or qs is None or not (0 <= p[2] <= p[3] <= rs) or not (0 <= p[6] <= p[7] <= qs):
+                    ev.judge = "pair %s out of the bounds ref %s / qry %s" % (p, rs, qs)
+                    return ev
+        if any(n in qry and qry[n] != ref[n] for n in ref):
+            ev.nontrivial = ("shared", case_key(case))
+        return ev
+
+
+# ==========================================================================================
+# C04 / C07(step) — step-through
+# ==========================================================================================
+
+def gen_header_side(rng, name):
+    strand = rng.choice("+-")
+    mode = rng.random()
+    if mode < 0.7:
+        size = rng.randint(1, 60)
+    elif mode < 0.85:
+        size = rng.choice([2 ** 32, 2 ** 63, U64 - 1, U64])
+    else:
+        size = rng.choice([0, 1, 2])
+    start = rng.randint(0, min(size, 10)) if rng.random() < 0.7 else rng.randint(0, size)
+    end = rng.randint(start, size) if rng.random() < 0.6 else min(size, start + rng.randint(0, 30))
+    return [name, size, strand, start, end]
+
+
+def gen_step_case(rng):
+    ref = gen_header_side(rng, rng.choice(["a", "chr1"]))
+    qry = gen_header_side(rng, rng.choice(["b", "chr1"]))
+    mode = rng.random()
+    n = rng.choice([1, 1, 2, 3, 4, 6, 8])
+    recs = []
+    if mode < 0.55:
+        # records that add up exactly on both sides (when possible)
+        rext, qext = ref[4] - ref[3], qry[4] - qry[3]
+        tot = min(rext, qext)
+        cuts = sorted(rng.randint(0, tot) for _ in range(n - 1))
+        sizes = [b - a for a, b in zip([0] + cuts, cuts + [tot])]
+        rgap, qgap = rext - tot, qext - tot
+        for k, s in enumerate(sizes):
+            if k + 1 < n:
+                dt = rng.randint(0, rgap) if k + 2 < n else rgap
+                dq = rng.randint(0, qgap) if k + 2 < n else qgap
+                rgap -= dt
+                qgap -= dq
+                recs.append([s, dt, dq])
+            else:
+                recs.append([s, None, None])
+        if n == 1 and (rext != tot or qext != tot):
+            pass  # cannot add up with one record: stays a mismatch case
+        if rng.random() < 0.35 and recs:
+            k = rng.randrange(len(recs))
+            f = rng.choice([0, 1, 2])
+            if recs[k][f] is not None:
+                recs[k][f] = max(0, recs[k][f] + rng.choice([-2, -1, 1, 2, 7]))
+    else:
+        for k in range(n):
+            big = rng.random() < 0.12
+            s = rng.choice([U64, U64 - 1, 2 ** 63]) if big else rng.randint(0, 9)
+            if k + 1 < n or rng.random() < 0.1:
+                recs.append([s, rng.choice([0, 1, 2, 5, U64]) if rng.random() < 0.9 else rng.randint(0, 50),
+                             rng.choice([0, 1, 2, 5]) if rng.random() < 0.9 else U64])
+            else:
+                recs.append([s, None, None])
+    return {"kind": "step", "ref": ref, "qry": qry, "recs": recs}
+
+
+def step_request(case, cap):
+    hdr = "chain 7 %s %s 3" % (" ".join(str(x) for x in case["ref"]), " ".join(str(x) for x in case["qry"]))
+    recs = []
+    for s, dt, dq in case["recs"]:
+        recs.append(hx(str(s)) if dt is None else hx("%d\t%d\t%d" % (s, dt, dq)))
+    return "step %s %s %d" % (hx(hdr), ",".join(recs), cap), hx(hdr), ",".join(recs)
+
+
+class StepBase(Prop):
+    def shrink(self, case):
+        for k in range(len(case["recs"])):
+            if len(case["recs"]) > 1:
+                c = copy.deepcopy(case)
+                del c["recs"][k]
+                yield c
+        for k in range(len(case["recs"])):
+            for f in (0, 1, 2):
+                v = case["recs"][k][f]
+                if v:
+                    for nv in (0, v // 2, v - 1):
+                        if nv != v:
+                            c = copy.deepcopy(case)
+                            c["recs"][k][f] = nv
+                            yield c
+        for side in ("ref", "qry"):
+            for idx in (1, 3, 4):
+                v = case[side][idx]
+                for nv in (v // 2, v - 1):
+                    if 0 <= nv < v:
+                        c = copy.deepcopy(case)
+                        c[side][idx] = nv
+                        if c[side][3] <= c[side][4] <= c[side][1]:
+                            yield c
+
+    def neighbours(self, case, rng):
+        for k in range(len(case["recs"])):
+            for f in (0, 1, 2):
+                if case["recs"][k][f] is not None:
+                    for d in (-1, 1):
+                        c = copy.deepcopy(case)
+                        c["recs"][k][f] += d
+                        if 0 <= c["recs"][k][f] <= U64:
+                            yield c
+        for side in ("ref", "qry"):
+            for idx in (1, 3, 4):
+                for d in (-1, 1):
+                    c = copy.deepcopy(case)
+                    c[side][idx] += d
+                    if 0 <= c[side][3] <= c[side][4] <= c[side][1] <= U64:
+                        yield c
+            c = copy.deepcopy(case)
+            c[side][2] = "-" if c[side][2] == "+" else "+"
+            yield c
+
+
+@register
+class C04(StepBase):
+    id = "C04"
+    title = "Step-through tiles a chain exactly as its records and header dictate"
+    rule = ("headers over all four strand combinations with any start<=end<=size (sizes 0..60, 2^32, 2^63, u64::MAX) x record lists "
+            "of length 1-8: (a) lists that add up exactly, with a single field perturbed by ±1/±2/+7 in 35% of them, (b) free lists "
+            "with sizes/gaps including 0 and u64::MAX; judge = the specification's prefix-sum tiling (Lean `expected`, `sumsMatch`): "
+            "items before the first error are the expected pairs with their records, no error iff the records add up; "
+            "non-trivial = >= 2 records with dt != dq somewhere, or an arithmetic failure; distinct by case")
+
+    def cases(self, rng, tier):
+        for _ in range(4000 if tier == "quick" else 150000):
+            yield gen_step_case(rng)
+
+    def evaluate(self, ctx, case):
+        ev = Eval()
+        n = len(case["recs"])
+        req, hdr, recs = step_request(case, 4 * n + 8)
+        i, m = both(ctx, ev, req)
+        if i != m:
+            ev.corr = "impl %r vs model %r" % (i[:300], m[:300])
+        s = ctx.model.ask("spec step %s %s" % (hdr, recs))
+        ev.requests.append("spec step %s %s" % (hdr, recs))
+        if s == "badinput" or i == "badinput":
+            ev.tags.append("badinput")
+            return ev
+        if i == "new_err seq":
+            ev.judge = "a header with start<=end<=size could not be converted"
+            return ev
+        exp = s.split(" ; ")
+        items = i.split(" ; ")
+        match = exp[-1] == "match"
+        exp = exp[:-1]
+        ev.tags.append("match" if match else "nomatch")
+        if items[-1] != "done":
+            ev.judge = "the step-through did not end: " + i[:200]
+            return ev
+        items = items[:-1]
+        errs = [k for k, x in enumerate(items) if x.startswith("E")]
+        pre = items[:errs[0]] if errs else items
+        if pre != exp[:len(pre)]:
+            ev.judge = "pairs before the first error differ from the tiling: got %s, expected prefix of %s" % (pre, exp)
+        elif match and (errs or len(items) != len(exp)):
+            ev.judge = "records add up but the step-through reported %s" % (items[len(pre):],)
+        elif not match and not errs:
+            ev.judge = "records do not add up but no error was reported"
+        elif errs and errs[0] != len(items) - 1:
+            ev.judge = "items after the first error: %s" % (items[errs[0]:],)
+        for e in errs:
+            ev.tags.append(items[e])
+        if (n >= 2 and any(r[1] != r[2] for r in case["recs"] if r[1] is not None)) or errs:
+            ev.nontrivial = case_key2(case)
+        return ev
+
+
+def case_key2(case):
+    import hashlib, json
+    return hashlib.md5(json.dumps(case, sort_keys=True).encode()).hexdigest()[:12]
+
+
+# ==========================================================================================
+# line-class streams: C05, C07
+# ==========================================================================================
+
+HEADERS = ["chain 0 a 9 + 0 9 b 9 + 0 9 1", "chain 5 chr1 20 - 2 11 q1 30 + 4 13 2", "chain 1 a 9 + 1 5 b 9 - 0 4 7"]
+NONTERM = ["3\t0\t1", "2\t1\t0", "4\t0\t0", "0\t2\t2"]
+TERM = ["1", "4", "9", "0"]
+JUNK = ["chain oops", "3\t1", "x", "chain 0 a 9 + 5 2 b 9 + 0 9 1", " 5", "5\t\t", "chain 0 a 9 ? 0 9 b 9 + 0 9 1", "18446744073709551616"]
+CLASSES = "BHNTU"
+
+
+def render_class(rng, c):
+    if c == "B":
+        return ""
+    if c == "H":
+        return rng.choice(HEADERS)
+    if c == "N":
+        return rng.choice(NONTERM)
+    if c == "T":
+        return rng.choice(TERM)
+    return rng.choice(JUNK)
+
+
+def class_sequences(maxlen):
+    import itertools
+    for n in range(0, maxlen + 1):
+        for seq in itertools.product(CLASSES, repeat=n):
+            yield "".join(seq)
+
+
+def gen_line_case(rng, tier):
+    """longer random streams: good sections with padding, an error somewhere, more sections"""
+    lines = []
+    for _ in range(rng.randint(1, 4)):
+        lines += [""] * rng.choice([0, 0, 1, 2])
+        if rng.random() < 0.85:
+            lines.append(rng.choice(HEADERS))
+            lines += [rng.choice(NONTERM) for _ in range(rng.randint(0, 3))]
+            if rng.random() < 0.9:
+                lines.append(rng.choice(TERM))
+        if rng.random() < 0.35:
+            lines.append(render_class(rng, rng.choice(CLASSES)))
+    return lines
+
+
+class LinesBase(Prop):
+    def line_cases(self, rng, tier):
+        maxlen = 5 if tier == "quick" else 7
+        for seq in class_sequences(maxlen):
+            r = random.Random(seq + str(rng.random()))
+            yield {"kind": "lines", "lines": [render_class(r, c) for c in seq], "final_newline": r.random() < 0.5,
+                   "eol": r.choice(["\n", "\n", "\r\n"])}
+        for _ in range(600 if tier == "quick" else 20000):
+            yield {"kind": "lines", "lines": gen_line_case(rng, tier), "final_newline": rng.random() < 0.5,
+                   "eol": rng.choice(["\n", "\n", "\r\n"])}
+
+    def data(self, case):
+        return ch.render_lines(case["lines"], case.get("eol", "\n"), case.get("final_newline", True))
+
+    def shrink(self, case):
+        for k in range(len(case["lines"])):
+            c = copy.deepcopy(case)
+            del c["lines"][k]
+            yield c
+        if case.get("eol") != "\n":
+            c = copy.deepcopy(case)
+            c["eol"] = "\n"
+            yield c
+
+    def neighbours(self, case, rng):
+        for k in range(len(case["lines"]) + 1):
+            for cl in CLASSES:
+                c = copy.deepcopy(case)
+                c["lines"].insert(k, render_class(rng, cl))
+                yield c
+        for k in range(len(case["lines"])):
+            for cl in CLASSES:
+                c = copy.deepcopy(case)
+                c["lines"][k] = render_class(rng, cl)
+                yield c
+
+
+def norm_sec_items(items):
+    """compare errors after the first one without their line numbers"""
+    out, seen = [], False
+    for x in items:
+        if seen and x.startswith("E blank"):
+            x = "E blank"
+        if x.startswith("E"):
+            seen = True
+        out.append(x)
+    return out
+
+
+@register
+class C05(LinesBase):
+    id = "C05"
+    title = "Section iterator conforms to the chain-file line grammar up to the first error"
+    rule = ("every sequence over {blank, header, non-terminating data, terminating data, unparsable} of length <= 5 (quick) / <= 7 "
+            "(thorough), each rendered with varying concrete records, LF/CRLF, with/without final newline, plus random longer multi-"
+            "section streams; the iterator is driven to exhaustion (cap 4*lines+8); judge = the specification-level parser "
+            "(Lean `specSecs`, proved equal to the grammar `Parses`): items up to and including the first error must be equal; "
+            "sections yielded after an error must be runs of consecutive input lines; non-trivial = >= 2 sections or an error "
+            "not in first position; distinct by stream")
+
+    def cases(self, rng, tier):
+        return self.line_cases(rng, tier)
+
+    def evaluate(self, ctx, case):
+        ev = Eval()
+        data = self.data(case)
+        n = len(case["lines"])
+        req = "sections %s %d" % (ch.src_one(data), 4 * n + 8)
+        i, m = both(ctx, ev, req)
+        ii, mm = i.split(" ; "), m.split(" ; ")
+        if norm_sec_items(ii) != norm_sec_items(mm):
+            ev.corr = "impl %r vs model %r" % (i[:300], m[:300])
+        s = ctx.model.ask("spec secs " + ch.src_one(data))
+        ev.requests.append("spec secs " + ch.src_one(data))
+        ss = s.split(" ; ")
+        if i.startswith("panic") or i == "abort":
+            ev.judge = "panic"
+            return ev
+        # up to and including the first error
+        def upto(xs):
+            out = []
+            for x in xs:
+                out.append(x)
+                if x.startswith("E"):
+                    break
+            return out
+        if upto(ii) != ss:
+            ev.judge = "up to the first error: implementation %s, grammar %s" % (upto(ii), ss)
+            return ev
+        # sections after an error are runs of consecutive lines
+        if any(x.startswith("E") for x in ii):
+            canon = []
+            for t in case["lines"]:
+                r = ctx.model.ask("line " + hx(t))
+                canon.append(r.split(" print=")[0][3:] if r.startswith("ok") else "?")
+            k = [j for j, x in enumerate(ii) if x.startswith("E")][0]
+            for x in ii[k + 1:]:
+                if x.startswith("S "):
+                    parts = x[2:].split(" | ")
+                    want = ["header " + parts[0]] + ["data " + p for p in parts[1:]]
+                    if not any(canon[a:a + len(want)] == want for a in range(len(canon))):
+                        ev.judge = "section yielded after an error is not a run of consecutive input lines: " + x
+                        return ev
+                    if not (parts[-1].endswith(" T") and all(p.endswith(" N") for p in parts[1:-1])):
+                        ev.judge = "section with a misplaced terminating record: " + x
+                        return ev
+        nsec = sum(1 for x in ss if x.startswith("S"))
+        errpos = [j for j, x in enumerate(ss) if x.startswith("E")]
+        for x in ss:
+            ev.tags.append(" ".join(x.split(" ")[:2]) if x.startswith("E") else x.split(" ")[0])
+        if nsec >= 2 or (errpos and errpos[0] > 0):
+            ev.nontrivial = case_key2(case)
+        return ev
+
+
+@register
+class C07(LinesBase):
+    id = "C07"
+    title = "Iterators are finite and a step-through yields nothing after an error"
+    rule = ("all C05 streams (in particular streams ending inside a section) drained with cap 4*lines+8: at most lines+1 items, then "
+            "None; `lines()` likewise; all C04 sections (in particular records that do not add up or run out of bounds) drained "
+            "with cap 4*records+8: at most records+1 items, then None, no pair after an error; non-trivial = the drain contains an "
+            "error; distinct by case")
+
+    def cases(self, rng, tier):
+        a = self.line_cases(rng, tier)
+        for _ in range(10 ** 9):
+            try:
+                yield next(a)
+            except StopIteration:
+                break
+            yield gen_step_case(rng)
+
+    def shrink(self, case):
+        return (LinesBase.shrink(self, case) if case["kind"] == "lines" else StepBase.shrink(self, case))
+
+    def neighbours(self, case, rng):
+        return (LinesBase.neighbours(self, case, rng) if case["kind"] == "lines" else StepBase.neighbours(self, case, rng))
+
+    def evaluate(self, ctx, case):
+        ev = Eval()
+        if case["kind"] == "lines":
+            data = self.data(case)
+            n = len(case["lines"])
+            cap = 4 * n + 8
+            i, m = both(ctx, ev, "sections %s %d" % (ch.src_one(data), cap))
+            ii, mm = i.split(" ; "), m.split(" ; ")
+            obs = lambda xs: (xs[-1], len(xs) - 1 <= n + 1)
+            if obs(ii) != obs(mm):
+                ev.corr = "impl %r vs model %r" % (i[:300], m[:300])
+            if ii[-1] != "done":
+                ev.judge = "section iterator did not end within %d calls (%d lines): ...%s" % (cap, n, " ; ".join(ii[-3:]))
+            elif len(ii) - 1 > n + 1:
+                ev.judge = "section iterator yielded %d items for %d lines" % (len(ii) - 1, n)
+            i2, m2 = both(ctx, ev, "lines %s" % ch.src_one(data))
+            l2 = i2.split(" ; ")
+            if l2[-1] != "eof" or len(l2) - 1 > n:
+                ev.judge = "lines() yielded %d items for %d lines / did not end" % (len(l2) - 1, n)
+            if i2 != m2:
+                ev.corr = "lines: impl %r vs model %r" % (i2[:300], m2[:300])
+            if any(x.startswith("E") for x in ii):
+                ev.nontrivial = case_key2(case)
+                ev.tags.append("sections:error")
+            else:
+                ev.tags.append("sections:clean")
+        else:
+            n = len(case["recs"])
+            req, _, _ = step_request(case, 4 * n + 8)
+            i, m = both(ctx, ev, req)
+            if i in ("badinput", "new_err seq"):
+                ev.tags.append("step:" + i)
+                if i != m:
+                    ev.corr = "impl %r vs model %r" % (i, m)
+                return ev
+            ii, mm = i.split(" ; "), m.split(" ; ")
+            def obs(xs):
+                errs = [k for k, x in enumerate(xs) if x.startswith("E")]
+                return (xs[-1], len(xs) - 1 <= n + 1, (not errs) or errs[0] == len(xs) - 2)
+            if obs(ii) != obs(mm):
+                ev.corr = "impl %r vs model %r" % (i[:300], m[:300])
+            errs = [k for k, x in enumerate(ii) if x.startswith("E")]
+            if ii[-1] != "done":
+                ev.judge = "step-through did not end within %d calls (%d records): ...%s" % (4 * n + 8, n, " ; ".join(ii[-3:]))
+            elif len(ii) - 1 > n + 1:
+                ev.judge = "step-through yielded %d items for %d records" % (len(ii) - 1, n)
+            elif errs and errs[0] != len(ii) - 2:
+                ev.judge = "step-through yielded items after an error: %s" % (ii[errs[0]:],)
+            if errs:
+                ev.nontrivial = case_key2(case)
+                ev.tags.append("step:error")
+            else:
+                ev.tags.append("step:clean")
+        return ev
